@@ -248,6 +248,9 @@ func GenConfig(t *rapid.T, f Focus) Config {
 			c.ExchangeRate = pick(t, "rate", rates)
 		}
 	}
+	if pct(t, "start_height_at_byte_boundary", 12) {
+		c.StartHeight = pick(t, "start_height", []int64{250, 65530, 4294967290, 240, 16777210})
+	}
 	if f.Prop == "C09" && pct(t, "reactive_module", 30) {
 		c.Reactive = true
 		c.ReactSiblings = pct(t, "reactive_module_kills_siblings", 50)
@@ -1418,6 +1421,11 @@ func (g *GenState) genOfKind(t *rapid.T, kind string) Action {
 			a.Threshold = uint32(pick(t, "threshold", []int{1, n, 2, 0, n + 1}))
 			if pct(t, "create_paused", 15) {
 				a.Desc = "paused"
+			}
+			if pct(t, "half_registered_module", 6) {
+				// a module that registered a response callback only must not get a context
+				// (it could not be told that its consumer cannot pay)
+				a.Module = pick(t, "other_module", []string{VModHalf, VModHalf, "nomod"})
 			}
 		}
 		return a
